@@ -117,13 +117,7 @@ Proof.
     split; [reflexivity|]. split; [exact Hcs|]. split.
     + apply slice_full_prefix; nia.
     + unfold At. rewrite He. cbn. repeat split; try assumption; try lia.
-      unfold coh. fold size S.
-      destruct (Z_le_gt_dec (n * size) (len S - p * size)).
-      * left. assert (cnt = n) by (unfold cnt; unfold nsamp in *; fold S size in Hns1, Hns2 |- *; nia). nia.
-      * destruct (Z_le_gt_dec (len S - p * size) 0).
-        -- left. assert (cnt = 0) by (unfold cnt, nsamp in *; fold S size in Hns1, Hns2 |- *; nia). nia.
-        -- right. assert (cnt = nsamp rd - p) by (unfold cnt, nsamp in *; fold S size in Hns1, Hns2 |- *; nia).
-           split; [lia|]. fold S size in Hns1. nia.
+      left. fold size. ring.
   - (* at the partial tail *)
     rewrite Hpe in *.
     assert (Hl0 : len (slice S (r_off st) (n * size)) < size) by (rewrite Hlen; nia).
@@ -133,7 +127,7 @@ Proof.
     split; [reflexivity|]. split; [lia|]. split.
     + rewrite Z.mul_0_l. rewrite slice_nil_n. reflexivity.
     + unfold At. rewrite He. cbn. repeat split; try assumption; try lia.
-      right. fold S size. rewrite Hlen. split; [lia|]. nia.
+      right. fold S size. split; [lia|]. lia.
 Qed.
 
 (* ------------------------------------------------------------------ text *)
